@@ -22,10 +22,13 @@ namespace RDM
 
 /-! ## operands -/
 
-/-- what kind of object the operand is; an aware datetime carries an opaque zone tag
-    (`replace` keeps tzinfo, `datetime + timedelta` is wall-clock arithmetic keeping tzinfo). -/
+/-- what kind of object the operand is; an aware datetime carries its tzinfo as a pair
+    (zone id, object id): `replace` keeps tzinfo and `datetime + timedelta` is wall-clock arithmetic
+    keeping tzinfo (so `applyTo` never looks at either id), while CPython's `<` and `-` between two aware
+    datetimes work on the wall clock iff the two tzinfo are the SAME OBJECT and in UTC otherwise
+    (two equal zones held by distinct objects, e.g. two `tz.tzlocal()`, are compared in UTC). -/
 inductive Kind where
-  | date | naive | aware (zone : Nat)
+  | date | naive | aware (zone : Nat) (obj : Nat := 0)
   deriving DecidableEq, Repr, Inhabited
 
 /-- a `datetime.date` (time fields 0), a naive or an aware `datetime.datetime` -/
@@ -345,38 +348,51 @@ def coerce (a b : Temporal) : Temporal × Temporal :=
   | _, .date => (a, { b with kind := .naive })
   | _, _ => (a, b)
 
-/-- can `a < b` be evaluated?  naive vs aware raises TypeError; two aware operands are modelled only
-    for a common zone tag (same tzinfo object ⇒ wall-clock comparison) -/
+/-- how CPython evaluates `a < b` / `a - b`: naive vs aware raises TypeError; same tzinfo object (and
+    date/date, naive/naive) ⇒ wall-clock fields; two distinct tzinfo objects ⇒ both sides minus their
+    `utcoffset()` -/
 inductive Cmp where
-  | ok | typeError | outsideModel
+  | wall | utc | typeError
   deriving DecidableEq, Repr
 
 def comparable (a b : Kind) : Cmp :=
   match a, b with
-  | .date, .date => .ok
-  | .naive, .naive => .ok
-  | .aware z, .aware z' => if z = z' then .ok else .outsideModel
+  | .date, .date => .wall
+  | .naive, .naive => .wall
+  | .aware z o, .aware z' o' => if z = z' ∧ o = o' then .wall else .utc
   | _, _ => .typeError
+
+/-- `x.utcoffset()` in µs: `off zone wallFields` for an aware datetime (the zone's rule is a parameter of
+    the model; fold is not modelled, see c09.py ASSUMPTIONS), 0 otherwise -/
+def utcOff (off : Nat → DT → Int) (x : Temporal) : Int :=
+  match x.kind with
+  | .aware z _ => off z x.t
+  | _ => 0
+
+/-- the quantity `<` and `-` work on: wall-clock µs, or UTC µs when the tzinfo objects differ -/
+def cmpKey (off : Nat → DT → Int) (utc : Bool) (x : Temporal) : Int :=
+  if utc then x.t.toMicros - utcOff off x else x.t.toMicros
 
 /-- the empty relativedelta of lines 127-143 -/
 def empty : RD := {}
 
 /-- lines 161-164: `while compare(dt1, dtm): months += increment; _set_months; dtm = dt2 + self`.
-    `none` = fuel exhausted. `up` = (dt1 < dt2). -/
-def diffLoop : Nat → Bool → Temporal → Temporal → Int → Temporal → Option (Py.R (Int × Temporal))
+    `none` = fuel exhausted. `up` = (dt1 < dt2). `key` = what the comparison compares. -/
+def diffLoop (key : Temporal → Int) : Nat → Bool → Temporal → Temporal → Int → Temporal → Option (Py.R (Int × Temporal))
   | fuel, up, dt1, dt2, months, dtm =>
-    if (if up then DT.lt dtm.t dt1.t else DT.lt dt1.t dtm.t) then
+    if (if up then key dtm < key dt1 else key dt1 < key dtm) then
       match fuel with
       | 0 => none
       | fuel + 1 =>
         let months' := if up then months + 1 else months - 1
         match applyTo (Gen.setMonths empty months') dt2 with
         | .error e => some (.error e)
-        | .ok dtm' => diffLoop fuel up dt1 dt2 months' dtm'
+        | .ok dtm' => diffLoop key fuel up dt1 dt2 months' dtm'
     else some (.ok (months, dtm))
 
-/-- `relativedelta(dt1, dt2)` with loop fuel (lines 112-169, 229) -/
-def diffN (fuel : Nat) (a b : Temporal) : Option (Py.R RD) :=
+/-- `relativedelta(dt1, dt2)` with loop fuel (lines 112-169, 229); `off` gives the utcoffset of a zone
+    at a wall time and is consulted only when the operands are aware with distinct tzinfo objects -/
+def diffN (off : Nat → DT → Int) (fuel : Nat) (a b : Temporal) : Option (Py.R RD) :=
   let dt1 := (coerce a b).1
   let dt2 := (coerce a b).2
   let months := (dt1.t.y - dt2.t.y) * 12 + (dt1.t.m - dt2.t.m)
@@ -385,17 +401,16 @@ def diffN (fuel : Nat) (a b : Temporal) : Option (Py.R RD) :=
   | .ok dtm =>
     match comparable dt1.kind dt2.kind with
     | .typeError => some (.error .TypeError)
-    | .outsideModel => some (.error .NotImplemented)
-    | .ok =>
-      match diffLoop fuel (DT.lt dt1.t dt2.t) dt1 dt2 months dtm with
+    | mode =>
+      let key := cmpKey off (mode == .utc)
+      match diffLoop key fuel (decide (key dt1 < key dt2)) dt1 dt2 months dtm with
       | none => none
       | some (.error e) => some (.error e)
       | some (.ok (months', dtm')) =>
-        let δ := dt1.t.toMicros - dtm'.t.toMicros
         some (.ok (Gen.fix { Gen.setMonths empty months' with
-                 seconds := δ / 1000000, microseconds := δ % 1000000 }))
+                 seconds := (key dt1 - key dtm') / 1000000, microseconds := (key dt1 - key dtm') % 1000000 }))
 
 /-- the fuel used by the driver; `C09.diff_loop_terminates` shows 1 already suffices -/
-def diff (a b : Temporal) : Option (Py.R RD) := diffN 2 a b
+def diff (off : Nat → DT → Int) (a b : Temporal) : Option (Py.R RD) := diffN off 2 a b
 
 end RDM
